@@ -40,6 +40,7 @@ import (
 	"net/http"
 	"os"
 	"os/exec"
+	"runtime/debug"
 	"strings"
 	"sync"
 	"sync/atomic"
@@ -187,6 +188,10 @@ func (s *uoServer) serveTCP(l net.Listener, wrap func(net.Conn) net.Conn) {
 				rw = wrap(c)
 			}
 			s.serveStreamConn(rw)
+			// the connection counts as open until the CLIENT has closed it (a failed TLS handshake ends
+			// serveStreamConn, but only the client's FIN shows that the client released its socket)
+			c.SetReadDeadline(time.Now().Add(4 * time.Second))
+			io.Copy(io.Discard, c)
 			c.Close()
 			s.mu.Lock()
 			delete(s.open, c)
@@ -372,7 +377,21 @@ func runUpOwnChild(id string, parts []string) string {
 	if err != nil {
 		return "HARNESS-ERROR " + err.Error()
 	}
-	cert, _, _, err := pki.leaf("valid", "127.0.0.1")
+	// hs=<untrusted|name|expired>: the server presents a certificate that the client (which then verifies against
+	// the configured ca) rejects: every handshake fails on its own, nothing cancels it
+	hs := f["hs"]
+	leafKind := map[string]string{"": "valid", "untrusted": "unknownca", "name": "wrongname", "expired": "expired"}[hs]
+	if leafKind == "" {
+		return "HARNESS-ERROR unknown hs"
+	}
+	clientTLS := &tls.Config{InsecureSkipVerify: true}
+	if hs != "" {
+		clientTLS = &tls.Config{RootCAs: pki.caPool}
+	}
+	// a socket that is merely unreachable would be closed by its finalizer at some later collection: that is not
+	// "closed by the upstream".  No collection runs in this process.
+	debug.SetGCPercent(-1)
+	cert, _, _, err := pki.leaf(leafKind, "127.0.0.1")
 	if err != nil {
 		return "HARNESS-ERROR " + err.Error()
 	}
@@ -411,7 +430,7 @@ func runUpOwnChild(id string, parts []string) string {
 		return
 	}
 	u, err := upstream.NewUpstream(fmt.Sprintf(urlf, addr), upstream.Opt{
-		TLSConfig: &tls.Config{InsecureSkipVerify: true},
+		TLSConfig: clientTLS,
 		Control:   control,
 	})
 	if err != nil {
@@ -465,6 +484,12 @@ func runUpOwnChild(id string, parts []string) string {
 	muteReuse := 0 // mute exchanges in flight on the reuse leg
 	for _, st := range plan {
 		switch st {
+		case "hf":
+			// the TLS / QUIC handshake fails (hs=): the exchange fails, and the connection that was dialled for it
+			// must not stay behind
+			if exchOn(u, "ok", 3*time.Second) {
+				return "HARNESS-ERROR the handshake was meant to fail"
+			}
 		case "ok", "tc":
 			if !exchOn(u, st, 3*time.Second) {
 				return "HARNESS-ERROR the exchange '" + st + "' before Close failed"
@@ -506,7 +531,7 @@ func runUpOwnChild(id string, parts []string) string {
 	}
 	preU, preT := openFds()
 	pre := fmt.Sprintf("%d/%d", preU, preT)
-	if q0 >= 0 || alpn == "h1" {
+	if q0 >= 0 || alpn == "h1" || hs != "" {
 		pre = "-"
 	}
 
